@@ -128,7 +128,7 @@ def gen_engine(rng, profile="algebraic", activations=("General",), weighted=Fals
         outputs.append({
             "name": f"out{i}", "enabled": rng.random() > 0.1, "min": lo, "max": hi,
             "lock_range": rng.random() < 0.3, "lock_previous": rng.random() < 0.3,
-            "default": rng.choice([math.nan, math.nan, round(rng.uniform(lo - 1, hi + 1), 2)]),
+            "default": rng.choice([math.nan, math.nan, math.nan, round(rng.uniform(lo - 1, hi + 1), 2), round(rng.uniform(lo - 1, hi + 1), 2), 0.0, 0.0, -0.0, math.inf, -math.inf]),
             "aggregation": "Sharp" if sharp else rng.choice(SNORMS), "defuzzifier": defuzz, "terms": terms})
     blocks = []
     for b in range(rng.choice([1, 1, 2])):
